@@ -372,16 +372,19 @@ impl Node {
             }
             Op::Nested { models } => {
                 // Synchronous use of a second, single-threaded simulation from within a handler.
-                let mut init = SimInit::with_num_threads(1);
+                // 1-3 models: single-threaded; 4: two worker threads; 5: single-threaded and the
+                // inner model panics (the inner simulation reports it, the outer handler goes on).
+                let inner_threads = if models == 4 { 2 } else { 1 };
+                let mut init = SimInit::with_num_threads(inner_threads);
                 let mut inner_addrs = Vec::new();
-                for k in 0..models.max(1) {
+                for k in 0..models.clamp(1, 3) {
                     let mb: Mailbox<InnerModel> = Mailbox::new();
                     inner_addrs.push(mb.address());
                     init = init.add_model(InnerModel, mb, format!("inner{}", k));
                 }
                 if let Ok((mut inner, _sched)) = init.init(MonotonicTime::EPOCH) {
                     for a in &inner_addrs {
-                        let _ = inner.process_event(InnerModel::ping, 1u64, a);
+                        let _ = inner.process_event(InnerModel::ping, if models == 5 { 666u64 } else { 1u64 }, a);
                     }
                     drop(inner);
                 }
@@ -414,7 +417,11 @@ impl Node {
 pub struct InnerModel;
 impl Model for InnerModel {}
 impl InnerModel {
-    pub async fn ping(&mut self, _x: u64) {}
+    pub async fn ping(&mut self, x: u64) {
+        if x == 666 {
+            std::panic::panic_any("inner model panic");
+        }
+    }
 }
 
 pub fn mtt(t: (i64, u32)) -> MonotonicTime {
